@@ -554,7 +554,7 @@ class ExprMixin:
         elem = from_z3(z3.Select(src.arr, i), src.et)
         fid = st.new_frame({}, parent=st.fid)
         saved, st.fid = st.fid, fid
-        npc = len(st.pc)
+        npc = len(st.pc) - st.closed_defs
         old_spec, self.spec = self.spec, True
         self.in_quant += 1
         try:
@@ -566,7 +566,7 @@ class ExprMixin:
             self.spec = old_spec
             self.in_quant -= 1
             st.fid = saved
-        if len(st.pc) != npc:
+        if len(st.pc) - st.closed_defs != npc:
             raise Unsupported("comprehension body needs definitional facts (line %s)" % node.lineno)
         cond = z3.And(*conds) if conds else z3.BoolVal(True)
         return src, i, cond, (key, val)
